@@ -1,8 +1,9 @@
 """C12 - request admission."""
-FUNCTIONS = ['server.Server.handle_request', 'base_server.BaseServer._get_socket',
+FUNCTIONS = ['server.Server.handle_request', 'async_server.AsyncServer.handle_request',
+             'base_server.BaseServer._get_socket',
              'base_server.BaseServer.transport']
 
-LEVEL_TEXT = ('handle_request (threaded server) is verified against the decision-table spec function '
+LEVEL_TEXT = ('handle_request (threaded and asyncio servers, one contract text) is verified against the decision-table spec function '
               'refusal(server, environ) written from the statement (transport not allowed, missing EIO=4, '
               'non-numeric JSONP index, dead / unknown session id, transport mismatch without upgrade, '
               'websocket open without the Upgrade header -> 400; other methods -> 405): a refused request '
@@ -11,7 +12,7 @@ LEVEL_TEXT = ('handle_request (threaded server) is verified against the decision
               '(cut points) carry the argument through the 150-line function')
 LEVEL_NOTE = ('parse_qs is an arbitrary function from the query string to dict[str, non-empty list[str]] '
               '(superset of real queries); callee contracts of _handle_connect, handle_get_request, '
-              'handle_post_request, disconnect; asyncio handle_request not yet under contract')
-NOT_DECIDED = ['AsyncServer.handle_request (translate_request / _make_response front end)',
+              'handle_post_request, disconnect; the asyncio handle_request is verified from the translated environ on (translate_request is an abstract region, make_response a library contract logging status and headers like start_response)')
+NOT_DECIDED = ['the async drivers\' translate_request / make_response (framework glue)',
                'priority among several simultaneous refusal reasons follows the code']
 ASSUMPTIONS = [LEVEL_NOTE]
